@@ -56,6 +56,15 @@ func TotalAmount(orders []Order) sdkmath.Int {
 	return amt
 }
 
+// totalOpenAmount returns total open amount of orders.
+func totalOpenAmount(orders []Order) sdkmath.Int {
+	amt := sdkmath.ZeroInt()
+	for _, order := range orders {
+		amt = amt.Add(order.GetOpenAmount())
+	}
+	return amt
+}
+
 // TotalMatchableAmount returns total matchable amount of orders.
 func TotalMatchableAmount(orders []Order, price sdkmath.LegacyDec) (amt sdkmath.Int) {
 	amt = sdkmath.ZeroInt()
